@@ -3,7 +3,10 @@ package enginex
 import (
 	"context"
 	"fmt"
+	"os"
 	"runtime"
+	"runtime/pprof"
+	"sort"
 	"strconv"
 	"strings"
 	"sync"
@@ -190,23 +193,50 @@ func RunV1(c Case, deadline time.Duration) Obs {
 			}
 		}
 	}
-	o.Hang = x.drive(done, fire, deadline)
-	if o.Hang {
-		rmu.Lock()
-		for id := range running {
-			o.Note += id + " "
+	// Known defect of the unchanged tree, unrelated to C01/C04/C05: a ParallelNode can
+	// deadlock - its coordinator blocks forever in `c.errs <- err` (channel capacity =
+	// Workers) while ParallelNode.Run is not receiving from errs (it is blocked handing
+	// the next job to the coordinator, or has left its loop after a cancellation and waits
+	// for the coordinator). Everything upstream and downstream then waits for it. Such a
+	// run is over; it is recognised by the coordinator's goroutine state, nothing else.
+	stuck := func() string {
+		if !coordinatorBlockedOnSend() {
+			return ""
 		}
-		rmu.Unlock()
+		rmu.Lock()
+		defer rmu.Unlock()
+		var ids []string
+		for id := range running {
+			if strings.HasSuffix(id, "-parallel") {
+				ids = append(ids, id)
+			}
+		}
+		sort.Strings(ids)
+		return "parallel-node-shutdown-deadlock: " + strings.Join(ids, " ")
+	}
+	o.Hang, o.Stuck = x.drive(done, fire, stuck, deadline)
+	if o.Hang || o.Stuck != "" {
+		if o.Hang {
+			rmu.Lock()
+			for id := range running {
+				o.Note += id + " "
+			}
+			rmu.Unlock()
+			if os.Getenv("VERIF_DUMP") != "" {
+				_ = pprof.Lookup("goroutine").WriteTo(os.Stderr, 1)
+			}
+		}
 		cancel()
 		x.sched.FreeRun()
 		forceStop()
 		select {
 		case <-done:
-		case <-time.After(time.Second):
+		case <-time.After(200 * time.Millisecond):
 		}
 	}
 	x.sched.FreeRun()
 	o.Log = x.log.Snapshot()
+	o.RunID = x.log.id
 	rmu.Lock()
 	if failed {
 		o.Results = []string{"err"}
@@ -216,4 +246,30 @@ func RunV1(c Case, deadline time.Duration) Obs {
 	rmu.Unlock()
 	o.Released = x.sched.Released()
 	return o
+}
+
+// coordinatorBlockedOnSend reports whether some goroutine is parked in a plain
+// channel send inside stream.parallelNodeCoordinator.Run (the `c.errs <- err`
+// statements; sending a message on is a select and shows as such).
+func coordinatorBlockedOnSend() bool {
+	buf := make([]byte, 1<<21)
+	n := runtime.Stack(buf, true)
+	for _, g := range strings.Split(string(buf[:n]), "\n\n") {
+		nl := strings.IndexByte(g, '\n')
+		if nl < 0 || !strings.Contains(g[:nl], "[chan send") {
+			continue
+		}
+		lines := strings.Split(g[nl+1:], "\n")
+		// the innermost frame that is not runtime's must be the coordinator
+		for _, l := range lines {
+			if strings.HasPrefix(l, "runtime.") || strings.HasPrefix(l, "\t") {
+				continue
+			}
+			if strings.Contains(l, "(*parallelNodeCoordinator).Run") {
+				return true
+			}
+			break
+		}
+	}
+	return false
 }
